@@ -85,6 +85,17 @@ func scenario(role string, seed int) string {
 		if i%4 == 3 {
 			_ = l.Send(l.PeerMsg("0", ""))
 		}
+		// an open-ended ResendRequest that covers the newest messages, which the senders are
+		// still producing: the resend path and Send then work on the same message objects
+		if snap := l.Snapshot(); len(snap) > 0 {
+			from := snap[len(snap)-1].Seq - 1
+			if from < 1 {
+				from = 1
+			}
+			for k := 0; k < 3; k++ {
+				_ = l.Send(l.PeerMsg("2", "7="+strconv.Itoa(from)+"\x0116=0\x01"))
+			}
+		}
 		time.Sleep(100 * time.Millisecond)
 	}
 	// silence: the inbound timer (N + max(1,N/20) = 2 s) expires, a TestRequest must come
